@@ -112,6 +112,13 @@ class RegionList(Spec):
         self.region = region
 
 
+class ElemList(Spec):
+    """A Python list of objects of a Region, of any length (the item keys are a symbolic integer sequence)."""
+
+    def __init__(self, region):
+        self.region = region
+
+
 class Elem(Spec):
     """A parameter that is some object of a Region (any key), or None when optional."""
 
